@@ -177,6 +177,33 @@ Example C34_bload_offset_zero :
   peeks m st 753664 24 <> mf_data f.
 Proof. vm_compute. repeat split; try reflexivity. discriminate. Qed.
 
+(* ---- the graphics statements and PCOPY work on the page buffers the memory mappers address: what is drawn
+   is what PEEK packs (with C34_peek), drawing elsewhere does not disturb a byte, and after PCOPY the memory of
+   the destination page reads like the memory of the source page did (page stride = vm_page_size) *)
+Theorem C34_draw_pixels : forall st page y x w c k, 0 <= k < w ->
+  vs_px (draw_run st page y x w c) page y (x + k) = c.
+Proof. exact draw_pixels. Qed.
+Print Assumptions C34_draw_pixels.
+
+Theorem C34_draw_peek_outside : forall m st a page y x w c, wf_gmode m = true ->
+  (forall k, 0 <= k < w -> ~ covers m a page y (x + k)) ->
+  peek m (draw_run st page y x w c) a = peek m st a.
+Proof. exact draw_peek_outside. Qed.
+Print Assumptions C34_draw_peek_outside.
+
+Theorem C34_pcopy_peek : forall m st src dst a x y, wf_gmode m = true ->
+  vmem_get_coords m a = (dst, x, y) ->
+  0 <= src < vmem_num_pages m -> 0 <= dst < vmem_num_pages m ->
+  peek m (pcopy st src dst) a = peek m st (a + (src - dst) * vm_page_size m).
+Proof. exact pcopy_peek. Qed.
+Print Assumptions C34_pcopy_peek.
+
+Theorem C34_pcopy_peek_other : forall m st src dst a, wf_gmode m = true ->
+  (let '(p, x, y) := vmem_get_coords m a in p <> dst) ->
+  peek m (pcopy st src dst) a = peek m st a.
+Proof. exact pcopy_peek_other. Qed.
+Print Assumptions C34_pcopy_peek_other.
+
 (* ---- non-vacuity *)
 Example C34_nonvacuous :
   let m := vmode_320x200x4 262144 in
